@@ -105,6 +105,9 @@ def call_value(ip, st, f, pos, kws, node=None):
         return [(st, call_spec(ip, st, f.name, pos, kws))]
     if k == "lib":
         return f.impl(ip, st, pos, kws)
+    if k == "absfn":
+        from .histlib import call_absfn
+        return call_absfn(ip, st, f, pos, kws)
     if k == "class":
         return instantiate(ip, st, f, pos, kws)
     if k == "unbound":
@@ -242,6 +245,10 @@ def conform(ip, st, v, ty):
             return v
         if head == "Val" and isinstance(v, Ref) and isinstance(st.heap[v.cid], ValCell):
             return v
+        if head == "Val" and isinstance(v, (Num, Bool, NoneV, Str)):
+            # a python scalar where a context value is expected: its denotation as a value (dicts.scalar)
+            from .dicts import scalar
+            return Opaque(scalar(ip, st, v))
         if head == "Key" and isinstance(v, Str):
             return Opaque(ip.reg.key(v.s))
         raise Mismatch(ty)
@@ -269,6 +276,18 @@ def conform(ip, st, v, ty):
             return v
         if isinstance(v, View) and getattr(v, "term", None) is not None and v.term.sort == sort:
             return v
+        if args[0] == "Val":
+            # a list of strings where a list of context values is expected: the strings embedded by key_as_val
+            # (a canonical list term: the same strings give the same term)
+            kt = None
+            if isinstance(v, Ref) and isinstance(st.heap[v.cid], LstCell):
+                kt = ip.deref(st, v)
+            elif isinstance(v, View) and getattr(v, "term", None) is not None:
+                kt = v.term
+            if kt is not None and kt.sort == ip.reg.lst("Key"):
+                from .dicts import key_as_val
+                arr = "(lambda ((pi Int)) %s)" % key_as_val(ip, T("(select %s pi)" % ip.reg.l_arr(kt).s, "Key")).s
+                return ip.lst_view(T("(mk_%s %s %s)" % (sort, arr, ip.reg.l_len(kt).s), sort))
         if ip.is_seq(st, v):
             # materialise: fresh list term equal to the view pointwise
             view = ip.as_view(st, v)
@@ -902,6 +921,9 @@ def elem_call(ip, st, el, meth, pos, kws):
         else:
             ip.assumptions.add("fill() of the wrapped element does not raise here")
         set_elem_state(ip, st, el, T("(%s %s %s %s)" % (f, el.t.s, cur.s, v.t.s), "St"))
+        if ip.c is not None and ip.c.ghost.get("fill_mutates_context") and not ip.spec_mode:
+            from .histlib import fill_may_change_context
+            fill_may_change_context(ip, st, el, cur, v, pos[0])
         return [(st, NONE)]
     if meth in ("compute", "request"):
         cur = elem_state(ip, st, el)
@@ -1114,7 +1136,8 @@ def _sf_is_fresh(ip, e, st):
                 for x in (it.items if isinstance(it, Tup) else [it]):
                     if isinstance(x, Ref) and x.cid == v.cid:
                         n += 1
-            if n > 1:
+            # in a postcondition the object itself is one of the yielded values; at a yield it is not in `out` yet
+            if n > (0 if getattr(ip, "in_at_yield", False) else 1):
                 return Bool(FALSE)
         return Bool(TRUE)
     return Bool(TRUE)       # immutable values share nothing
